@@ -98,6 +98,11 @@ func prefixSets() []Set {
 		Set{"late", "augment-through-implied-case", []dump.File{{Name: "m.yang", Text: `module m { namespace "urn:m"; prefix m; container top { choice ch { container x { leaf l { type string; } } leaf s { type string; } } } augment /m:top/m:ch/m:x/m:x { choice inner { leaf il { type string; } container ic { choice deeper { leaf dl { type string; } } } } } }`}}},
 		Set{"late", "augment-through-implied-case-two-modules", []dump.File{{Name: "m.yang", Text: `module m { namespace "urn:m"; prefix m; container top { choice ch { container x { leaf l { type string; } } } } }`},
 			{Name: "n.yang", Text: `module n { namespace "urn:n"; prefix n; import m { prefix m; } augment /m:top/m:ch/m:x/m:x { choice inner { leaf il { type string; } } } augment /m:top/m:ch { leaf late { type string; } } }`}}},
+		// a node that one module augments (so that the augment machinery has looked its path up) and
+		// another module then declares not supported, alone or with what stands above it
+		Set{"late", "not-supported-target-of-an-augment", []dump.File{{Name: "b.yang", Text: `module b { namespace "urn:b"; prefix b; container c { container x { leaf xl { type string; } } container y { container inner { leaf il { type string; } } } leaf keep { type string; } } }`},
+			{Name: "a.yang", Text: `module a { namespace "urn:a"; prefix a; import b { prefix b; } augment /b:c/b:x { leaf ax { type string; } } augment /b:c/b:y/b:inner { leaf ai { type string; } } container own { leaf ol { type string; } } }`},
+			{Name: "d.yang", Text: `module d { namespace "urn:d"; prefix d; import b { prefix b; } deviation /b:c/b:x { deviate not-supported; } deviation /b:c/b:y { deviate not-supported; } }`}}},
 		Set{"late", "not-supported-rpc-io", []dump.File{{Name: "m.yang", Text: `module m { namespace "urn:m"; prefix m; rpc r { input { leaf i { type string; } } output { leaf o { type string; } } } container c { action act { input { leaf ai { type string; } } } } deviation /m:r/m:input { deviate not-supported; } deviation /m:c/m:act/m:input { deviate not-supported; } }`}}},
 	)
 	return out
@@ -119,6 +124,11 @@ func lateRevisionSets() []Set {
 		{"two-augments-one-name", `augment /b:c { leaf n { type string; } } augment /b:c { leaf n { type int8; } }`},
 		{"choice-collision", `augment /b:ch { leaf s { type string; } }`},
 		{"rpc-input-collision", `augment /b:r/b:input { leaf i { type string; } }`},
+		// into the implied case of a shorthand member: applied by the very last pass only
+		{"implied-case-fine", `augment /b:ch/b:s { leaf beside { type string; } }`},
+		{"implied-case-collision", `augment /b:ch/b:s { leaf s { type string; } }`},
+		{"implied-case-bad-body", `augment /b:ch/b:s { leaf z { type u:nosuch; } }`},
+		{"implied-case-bad-body-deep", `augment /b:ch/b:s { container zc { list zl { key k; leaf k { type u:nosuch; } } } }`},
 		{"deviation-missing-target", `deviation /b:c/b:nope { deviate not-supported; }`},
 		{"deviation-bad-type", `deviation /b:c/b:x { deviate replace { type u:nosuch; } }`},
 	}
